@@ -1,4 +1,5 @@
 import RichModel.Lemmas.MarkupEmbed
+import RichModel.Lemmas.MarkupHL
 /-!
 # C04 — markup styles exactly the tagged regions, and `escape()` neutralises any text
 
@@ -16,6 +17,9 @@ Two levels of reference semantics (Model/Markup.lean): `semC` over the *chunks* 
 (every chunk goes through `_emoji_replace` + `strip_control_codes` on its own; offsets are those of
 the replaced text) — valid for any emoji setting and any emoji table; and `sem` over single
 characters, which is what `semC` amounts to when emoji is off (`semC_is_sem`).
+
+Console glue: `renderStr` / `printStrs` (no highlighter) and, since deepening round 4, `renderStrH` /
+`printStrsH` (Model/MarkupHL.lean) with a highlighter as an arbitrary span source.
 -/
 namespace RichModel.C04
 open RichModel.Markup
@@ -306,6 +310,110 @@ theorem print_escape (cfg : Cfg) (con : ConsoleFlags) (emoji : Option Bool) (sep
     · simp [he] at hl
   simp [printStrs, List.mapM_cons, hr, joinRendered, pure, Except.pure, bind, Except.bind]
 
+/-! ## glue with a highlighter: `Console.render_str(..., highlight=, highlighter=)`, `Console.print(..., highlight=)`
+
+A highlighter is a span source (`Highlighter = plain text → spans`, arbitrary: `ReprHighlighter`, a user's
+`RegexHighlighter`, …).  `render_str` builds `Text(str(rich_text))`, lets the highlighter append its spans, then
+`copy_styles(rich_text)` EXTENDS the span list with the spans of the markup. -/
+
+/-- **render_str_highlight**: for every text, flags and highlighter, `render_str` with highlighting fails exactly
+when it fails without, returns the same plain text (the extra `Text(str(...))` strips nothing: the text is already
+free of BS/VT/FF/CR), and its spans are the highlighter's spans — computed on that final plain text, i.e. AFTER tags
+were removed and emoji codes replaced — followed by the spans of the markup. -/
+theorem render_str_highlight (cfg : Cfg) (con : ConsoleH) (emoji markup highlight : Option Bool)
+    (hl : Option Highlighter) (text : List Char) :
+    renderStrH cfg con emoji markup highlight hl text =
+      match renderStr cfg con.flags emoji markup text with
+      | .error e => .error e
+      | .ok (plain, spans) =>
+        .ok (plain, (if triFlag highlight con.highlight then (hl.getD con.highlighter) plain else []) ++ spans) :=
+  renderStrH_eq cfg con emoji markup highlight hl text
+
+/-- **markup_wins_over_highlight** (which wins: the markup).  EVERY markup string, any highlighter, any emoji
+setting and table: with markup and highlighting enabled `render_str` fails exactly when the chunk-level
+reference semantics does; otherwise at every character the covering spans in list order — the order `Text.render`
+combines them, later winning — are the highlighter's styles there FIRST and then exactly the tags open at that
+character in opening order.  So a tag always overrides what the highlighter set, and highlighting never changes
+which tags apply. -/
+theorem markup_wins_over_highlight (cfg : Cfg) (hS : cfg.sortSpans = false) (con : ConsoleH)
+    (emoji markup highlight : Option Bool) (hl : Option Highlighter) (text : List Char)
+    (hm : triFlag markup con.markup = true) (hh : triFlag highlight con.highlight = true) :
+    let cfg' : Cfg := { cfg with emoji := if triFlag emoji con.emoji then cfg.emoji else none }
+    match semC cfg' [] (chunks text) with
+    | some ann => ∃ spans, renderStrH cfg con emoji markup highlight hl text = .ok (ann.map Prod.fst, spans) ∧
+        ∀ p (h : p < ann.length),
+          effStyles spans p = effStyles ((hl.getD con.highlighter) (ann.map Prod.fst)) p ++ (ann[p]).2
+    | none => ∃ e, renderStrH cfg con emoji markup highlight hl text = .error e := by
+  intro cfg'
+  have hr : renderStr cfg con.flags emoji markup text = render cfg' text :=
+    render_str_markup_on cfg con.flags emoji markup text hm
+  have key := render_refinesC cfg' hS text
+  rw [renderStrH_eq, hr]
+  cases hsem : semC cfg' [] (chunks text) with
+  | none =>
+    rw [hsem] at key
+    obtain ⟨e, he⟩ := key
+    exact ⟨e, by rw [he]⟩
+  | some ann =>
+    rw [hsem] at key
+    obtain ⟨spans, he, hp⟩ := key
+    refine ⟨_, by rw [he], ?_⟩
+    intro p h
+    simp only [hh, if_true]
+    rw [effStyles_append, hp p h]
+
+/-- with highlighting disabled, or under the null highlighter, nothing changes -/
+theorem render_str_highlight_off (cfg : Cfg) (con : ConsoleH) (emoji markup highlight : Option Bool)
+    (hl : Option Highlighter) (text : List Char)
+    (h : triFlag highlight con.highlight = false ∨ hl = some nullHighlighter) :
+    renderStrH cfg con emoji markup highlight hl text = renderStr cfg con.flags emoji markup text :=
+  renderStrH_off cfg con emoji markup highlight hl text h
+
+/-- **print_highlight_decision**: `Console.print(*strings, highlight=h)` highlights its strings only on a console
+whose own default is `highlight=True`, and then unless `h` is `False`.  (`_collect_renderables` turns `h` into a
+highlighter but does not pass the flag on to `render_str`, which consults the console default alone: on a
+`Console(highlight=False)`, `print("1", highlight=True)` does NOT highlight a string — the code as it is in 9.10.0
+and since; outside the statement of C04, recorded in the report, not a finding of this property.)  Otherwise the
+`Text` built is the one built without any highlighter. -/
+theorem print_highlight_decision (cfg : Cfg) (con : ConsoleH) (emoji markup highlight : Option Bool)
+    (sep : List Char) (objs : List (List Char)) (h : con.highlight = false ∨ highlight = some false) :
+    printStrsH cfg con emoji markup highlight sep objs = printStrs cfg con.flags emoji markup sep objs := by
+  unfold printStrsH printStrs
+  have hf : (renderStrH cfg con emoji markup none
+      (some (if triFlag highlight con.highlight then con.highlighter else nullHighlighter))) =
+      renderStr cfg con.flags emoji markup := by
+    funext text
+    apply renderStrH_off
+    rcases h with h | h
+    · left; simp [triFlag, h]
+    · right; subst h; simp [triFlag]
+  simp only [hf]
+  try rfl
+
+/-- …and when it does highlight, every string is `render_str` with the console's highlighter. -/
+theorem print_highlight_on (cfg : Cfg) (con : ConsoleH) (emoji markup highlight : Option Bool)
+    (sep : List Char) (objs : List (List Char)) (hc : con.highlight = true) (hh : highlight ≠ some false) :
+    printStrsH cfg con emoji markup highlight sep objs =
+      match objs.mapM (renderStrH cfg con emoji markup (some true) none) with
+      | .ok ts => .ok (joinRendered sep 0 true ts)
+      | .error e => .error e := by
+  unfold printStrsH
+  have ht : triFlag highlight con.highlight = true := by
+    cases highlight with
+    | none => simp [triFlag, hc]
+    | some b => cases b <;> simp_all [triFlag]
+  have hf : (renderStrH cfg con emoji markup none (some (if triFlag highlight con.highlight then con.highlighter else nullHighlighter))) =
+      renderStrH cfg con emoji markup (some true) none := by
+    funext text
+    have h1 : triFlag none con.highlight = true := by simp [triFlag, hc]
+    have h2 : triFlag (some true) con.highlight = true := rfl
+    rw [renderStrH_eq, renderStrH_eq]
+    cases renderStr cfg con.flags emoji markup text with
+    | error e => rfl
+    | ok r => simp only [ht, h1, h2, if_true, Option.getD_some, Option.getD_none]
+  simp only [hf]
+  try rfl
+
 /-! ## MarkupError -/
 
 /-- **error_iff_nothing_to_close**, both span orders: `render` raises `MarkupError` exactly when
@@ -360,5 +468,25 @@ example : (∀ p ∈ [Piece.opening "b".toList none, .text "x[a]".toList, .openi
 example : ∃ e, render (cfgId false) "[a]x[/b]".toList = .error e := ⟨.noMatch 4 "[/b]".toList, by decide⟩
 example : NothingToClose (cfgId false) [] (events "[a]x[/b]".toList) :=
   ⟨[Ev.tag ⟨"a".toList, none⟩, Ev.chr 'x'], ⟨"/b".toList, none⟩, [], by decide, by decide⟩
+
+/-! ### non-vacuity of the highlighter theorems -/
+
+/-- a highlighter for the examples: every `1` gets the style `n` (as `repr.number` would) -/
+def hlOnes : Highlighter := fun s =>
+  (s.zipIdx.filter (fun p => p.1 = '1')).map (fun p => { start := p.2, stop := p.2 + 1, style := "n".toList })
+
+def conH (hi : Bool) : ConsoleH := { emoji := true, markup := true, highlight := hi, highlighter := hlOnes }
+
+/-- non-vacuity: `[b]1[/b]1` — the first `1` is under the highlighter's `n` and then the tag's `b` (the tag wins),
+the second under `n` alone; the highlighter saw the text without the tags. -/
+example : renderStrH (cfgId false) (conH true) none none none none "[b]1[/b]1".toList =
+    .ok ("11".toList, [⟨0, 1, "n".toList⟩, ⟨1, 2, "n".toList⟩, ⟨0, 1, "b".toList⟩]) := by decide
+example : effStyles [⟨0, 1, "n".toList⟩, ⟨1, 2, "n".toList⟩, ⟨0, 1, "b".toList⟩] 0 = ["n".toList, "b".toList] := by decide
+/-- the quirk stated by `print_highlight_decision`, on a concrete call: `highlight=True` given to `print` on a
+console with `highlight=False` leaves the `1` unhighlighted; on a `highlight=True` console it is highlighted. -/
+example : printStrsH (cfgId false) (conH false) none none (some true) [' '] ["1".toList] =
+    .ok ("1".toList, [⟨0, 1, []⟩]) := by decide
+example : printStrsH (cfgId false) (conH true) none none none [' '] ["1".toList] =
+    .ok ("1".toList, [⟨0, 1, []⟩, ⟨0, 1, "n".toList⟩]) := by decide
 
 end RichModel.C04
